@@ -81,6 +81,11 @@ def reunit(scn, seed, stats=None):
             op['dt'] = conv('TimeInterval', op['dt'])
             if 'T' in op:
                 op['T'] = conv('TimeInterval', op['T'])
+        elif op['op'] == 'set_state':
+            if op.get('position') is not None:
+                op['position'] = conv('AngularPosition', op['position'])
+            if op.get('speed') is not None:
+                op['speed'] = conv('AngularSpeed', op['speed'])
     for rule in b.get('rules', []):
         for key, kind in RULE_SITES.items():
             if key in rule:
